@@ -10,7 +10,7 @@
 
 package cbe
 
-//@ spec DecOK(d *Decoder) bool = d.config != nil && ReaderOK(d.reader)
+//@ spec DecOK(d *Decoder) bool = d.config != nil && d.reader.config == d.config && ReaderOK(d.reader)
 
 // A decoding step: consumes input, emits events, may fail by panicking (recovered in Decode).
 //@ macro DPATH(d)
@@ -36,6 +36,7 @@ package cbe
 //@   loop 0 invariant pos > old(pos) ==> evLen > old(evLen) && evIs(old(evLen), "OnArrayChunk") && (cbe.UlebSmall(in, old(pos)) ==> evArg(old(evLen), 0, "uint64") == cbe.UlebVal(in, old(pos)) >> 1 && evArg(old(evLen), 1, "bool") == (cbe.UlebVal(in, old(pos)) & 1 == 1))
 //@   loop 0 decreases inLen - pos
 //@   loop 0 step pos > old(pos) && evIs(old(evLen), "OnArrayChunk")
+//@   loop 0 xstep (evLen == old(evLen) || (evPanic && evLen == old(evLen) + 1)) ==> (allocBytes - old(allocBytes)) >> 4 <= pos - old(pos) && pos >= old(pos)
 //@   loop 0 step cbe.UlebSmall(in, old(pos)) ==> evArg(old(evLen), 0, "uint64") == cbe.UlebVal(in, old(pos)) >> 1 && evArg(old(evLen), 1, "bool") == (cbe.UlebVal(in, old(pos)) & 1 == 1) && moreChunksFollow == (cbe.UlebVal(in, old(pos)) & 1 == 1)
 //@   loop 0 step cbe.UlebSmall(in, old(pos)) && cbe.ChunkBytes(elementBitWidth, cbe.UlebVal(in, old(pos)) >> 1) == 0 ==> evLen == old(evLen) + 1 && pos == old(pos) + cbe.UlebSpan(in, old(pos))
 //@   loop 0 step cbe.UlebSmall(in, old(pos)) && cbe.ChunkBytes(elementBitWidth, cbe.UlebVal(in, old(pos)) >> 1) > 0 ==> evLen == old(evLen) + 2 && evIs(old(evLen) + 1, "OnArrayData") && pos == old(pos) + cbe.UlebSpan(in, old(pos)) + cbe.ChunkBytes(elementBitWidth, cbe.UlebVal(in, old(pos)) >> 1)
@@ -55,8 +56,12 @@ package cbe
 //@   ensures evIs(old(evLen), "OnCustomBegin") && evArg(old(evLen), 0, "events.ArrayType") == 5 && evIs(old(evLen) + 1, "OnArrayChunk")
 //@   ensures cbe.UlebSmall(in, old(pos)) ==> evArg(old(evLen), 1, "uint64") == cbe.UlebVal(in, old(pos)) && cbe.UlebVal(in, old(pos)) <= 0xffffffff
 
+// The media type is read before any receiver sees it: its length is believed only up to the
+// configured array size limit (C08), so before the first event at most twice that is reserved.
+//@ spec MediaLimit(d *Decoder) uint64 = ite(d.config.Rules.MaxArraySizeBytes > 0 && d.config.Rules.MaxArraySizeBytes < 0xffffffff, d.config.Rules.MaxArraySizeBytes, uint64(0xffffffff))
 //@ func (*Decoder).decodeMedia
 //@   use DPATH(_this)
+//@   ensures uint64(len(evArg(old(evLen), 0, "string"))) <= MediaLimit(_this)
 //@   ensures pos > old(pos) && evLen >= old(evLen) + 2
 //@   ensures evIs(old(evLen), "OnMediaBegin") && evIs(old(evLen) + 1, "OnArrayChunk")
 //@   ensures cbe.UlebSmall(in, old(pos)) ==> uint64(len(evArg(old(evLen), 0, "string"))) == cbe.UlebVal(in, old(pos))
@@ -116,13 +121,13 @@ package cbe
 //@   ensures err == nil ==> in[p0] == 0x81 && (cbe.UlebSmall(in, p0 + 1) ==> evArg(e0 + 1, 0, "uint64") == ite(cbe.UlebVal(in, p0 + 1) == 1, uint64(0), cbe.UlebVal(in, p0 + 1)))
 
 //@ func (*Decoder).Decode
-//@   requires _this.config != nil && !_this.config.Debug.PassThroughPanics && _this.reader.config != nil && len(_this.reader.buffer) >= 16
+//@   requires _this.config != nil && !_this.config.Debug.PassThroughPanics && _this.reader.config == _this.config && len(_this.reader.buffer) >= 16
 //@   requires reader != nil && eventReceiver != nil && pos <= inLen && inLen <= 0x10000000000 && !rfailed && zeroReads < 100 && !evPanic
 //@   modifies evPanic, pos, rfailed, zeroReads, _this.reader.reader.reader, _this.reader.reader.pendingErr, _this.reader.bytesRead, _this.reader.buffer, memall(uint8), alloc, ev, bigNeg, bigIs64, bigLo, bigHi
 //@   use DECODE_POST(old(pos), old(evLen))
 
 //@ func (*Decoder).DecodeDocument
-//@   requires _this.config != nil && !_this.config.Debug.PassThroughPanics && _this.reader.config != nil && len(_this.reader.buffer) >= 16
+//@   requires _this.config != nil && !_this.config.Debug.PassThroughPanics && _this.reader.config == _this.config && len(_this.reader.buffer) >= 16
 //@   requires eventReceiver != nil && !evPanic
 //@   modifies evPanic, in, inLen, pos, rfailed, zeroReads, _this.reader.reader.reader, _this.reader.reader.pendingErr, _this.reader.bytesRead, _this.reader.buffer, memall(uint8), alloc, ev, bigNeg, bigIs64, bigLo, bigHi
 //@   ensures inLen == uint64(len(document)) && (forall i uint64 :: i < inLen ==> in[i] == old(document[i]))
@@ -155,3 +160,6 @@ package cbe
 //@ lemma cbe.roundtrip-array-header-18 forall n uint64, more uint64, p uint64, e uint64, pEnd uint64, eEnd uint64 :: more <= 1 && n <= 0x7fffffffffffffff && cbe.ArrHdrAt(in, p, 18, n, more) && MainItem(p, e, pEnd, eEnd) ==> ite(cbe.UseShort(18, n, more), eEnd == e + 1 && pEnd == p + cbe.ArrHdrLen(18, n, more) + n * (cbe.ElemBits(18) >> 3) && ArrayItem(p + cbe.ArrHdrLen(18, n, more), e, 18, n, cbe.ElemBits(18) >> 3), forwarded(e, "OnArrayBegin", events.ArrayType(18)) && eEnd >= e + 2 && evIs(e + 1, "OnArrayChunk") && evArg(e + 1, 0, "uint64") == n && evArg(e + 1, 1, "bool") == (more == 1))
 //@ lemma cbe.roundtrip-chunk-header forall n uint64, more uint64, p uint64 :: more <= 1 && n <= 0x7fffffffffffffff && cbe.UlebAt(in, p, (n << 1) | more) ==> cbe.UlebSmall(in, p) && cbe.UlebVal(in, p) >> 1 == n && (cbe.UlebVal(in, p) & 1 == 1) == (more == 1) && cbe.UlebSpan(in, p) == cbe.UlebLen((n << 1) | more)
 //@ lemma cbe.roundtrip-identifier forall n uint64, p uint64, e uint64, pEnd uint64 :: n >= 1 && n <= 100000 && cbe.UlebAt(in, p, n) && IdentItem(p, e, pEnd) ==> uint64(len(evArg(e, 0, "[]byte"))) == n && pEnd == p + cbe.UlebLen(n) + n && (forall i uint64 :: i < n ==> evArg(e, 0, "[]byte")[i] == in[p + cbe.UlebLen(n) + i])
+
+// The decoder half of the package allocates slices in exactly three places (C08).
+//@ structural cbe-decoder-makes: only_makes cbe@cbe.(*Reader)|cbe.(*Decoder)|cbe.(*normalizingReader)|cbe.validateLength: cbe.(*Reader).Init cbe.(*Reader).expandBufferTo cbe.(*Reader).ReadUint
